@@ -18,6 +18,7 @@ import (
 	"os"
 	"path/filepath"
 	"sort"
+	"strings"
 )
 
 type Ctx struct {
@@ -70,6 +71,7 @@ func (c *Ctx) Distinct(key string) {
 
 // PropFail records a failure of the property oracle itself.
 func (c *Ctx) PropFail(class, desc, op string) {
+	desc = strings.NewReplacer("\t", "\\t", "\n", "\\n").Replace(desc)
 	fmt.Fprintf(c.prop, "%s\t%s\t%s\n", class, desc, op)
 	c.nProp++
 }
